@@ -115,7 +115,7 @@ def _patches():
             m = json.load(f)
         d = os.path.dirname(meta)
         out.append({"id": os.path.basename(d), "property": m["property"], "patch": os.path.join(d, "patch.diff"),
-                    "kind": "seeded", "also": m.get("also_caught_by", [])})
+                    "kind": "seeded", "run_checks": m.get("run_checks") or [m["property"]]})
     return out
 
 
@@ -160,21 +160,26 @@ def sensitivity(tier, seed, only=None):
                        VERIF_REPLAY_DIR=os.path.join(work, "_replays"), VERIF_SEED=str(seed),
                        VERIF_MINIMISE_S="15", VERIF_MAX_GROUPS="2")
             t0 = time.time()
-            try:
-                c = subprocess.run([os.path.join(VERIF_DIR, "check"), m["property"], "--tier", tier],
-                                   capture_output=True, text=True, env=env, cwd=VERIF_DIR, timeout=1500)
-            except subprocess.TimeoutExpired:
-                rec["status"] = "check-timeout"
-                results.append(rec)
-                print("sensitivity %-40s check-timeout" % m["id"])
-                continue
-            rec["check_exit"] = c.returncode
+            rec["checks"] = {}
+            rec["status"] = "survived"
+            for prop_ in m.get("run_checks") or [m["property"]]:
+                try:
+                    c = subprocess.run([os.path.join(VERIF_DIR, "check"), prop_, "--tier", tier],
+                                       capture_output=True, text=True, env=env, cwd=VERIF_DIR, timeout=1500)
+                except subprocess.TimeoutExpired:
+                    rec["checks"][prop_] = "timeout"
+                    continue
+                rec["checks"][prop_] = c.returncode
+                if c.returncode == 1 and rec["status"] != "killed":
+                    rec["status"] = "killed"
+                    rec["killed_by"] = prop_
+                    viol = [ln for ln in c.stdout.splitlines() if ln.startswith("VIOLATION") or ln.startswith("  signature")]
+                    rec["first_violation"] = viol[:2]
+                elif c.returncode == 2:
+                    rec["status"] = "harness-error" if rec["status"] != "killed" else rec["status"]
+                    rec["detail"] = c.stdout[-600:]
+            rec["check_exit"] = rec["checks"].get(m["property"])
             rec["seconds"] = round(time.time() - t0, 1)
-            viol = [ln for ln in c.stdout.splitlines() if ln.startswith("VIOLATION") or ln.startswith("  signature")]
-            rec["first_violation"] = viol[:2]
-            rec["status"] = "killed" if c.returncode == 1 else ("survived" if c.returncode == 0 else "harness-error")
-            if c.returncode == 2:
-                rec["detail"] = c.stdout[-600:]
         finally:
             shutil.rmtree(work, ignore_errors=True)
         results.append(rec)
